@@ -229,6 +229,11 @@ def check_obs(case, obs):
                                 'is nowhere in the output; world %s'
                                 % (tid, t['k'], tok, style, stream, phase, desc)))
                 continue
+            if style == 'ctrl' and rel(t, phase) == 'before-first-event' and tw.ctrl_payload(tok) not in text:
+                res.append(('buffer:bad-test-output-altered:line-boundary-characters',
+                            'failing/erroring test %s (%s) wrote %r (std%s, %s); the report shows the token but not the '
+                            'text as written (\\r, \\f, \\x1d, \\x85, U+2028 are not line ends); world %s'
+                            % (tid, t['k'], tw.ctrl_payload(tok), stream, phase, desc)))
             for at in occ:
                 win = [w for w in windows.get(tid, ()) if w[0] <= at <= w[1]]
                 if not win:
@@ -287,6 +292,15 @@ def gen_single_writes():
                         continue
                     yield {'spec': {'tests': [dict(NOISE_BEFORE), t, dict(NOISE_AFTER)],
                                     'args': ['-vv', '--buffer']}}
+
+
+def gen_ctrl():
+    """captured text with characters that are line boundaries for str.splitlines() only: echoed as written"""
+    for k in ('fail', 'error', 'sub1'):
+        for stream in ('out', 'err'):
+            for args in (['--buffer'], ['-vv', '--buffer']):
+                t = {'k': k, 'out': [['body', stream, 'ctrl']]}
+                yield {'spec': {'tests': [dict(NOISE_BEFORE), t, dict(NOISE_AFTER)], 'args': args}}
 
 
 def gen_own_stdout():
@@ -381,6 +395,8 @@ def nontrivial(case):
 def run(budget_s, seed, tier):
     phases = [
         ('every kind alone, --buffer', True, gen_minimal()),
+        ('captured text with \\r \\f \\x1d \\x85 U+2028 (line boundaries for splitlines only): 3 kinds x 2 streams x 2 verbosities',
+         True, gen_ctrl()),
         ('one write: %d kinds x 4 phases x 2 streams x %d styles, --buffer'
          % (len(KINDS13), len(STYLES)), True, gen_single_writes()),
         ('a test that replaces sys.stdout itself and restores what it found in a cleanup: 7 kinds x 3 option sets x 3 positions',
